@@ -443,4 +443,466 @@ theorem download_delivers (c : Chan PS) (idx sub : Nat) (payload : Bytes) (sized
     simp only [wsClose, hd, Bool.not_true, Bool.false_and, Bool.false_eq_true, if_false]
     refine ⟨c2, rfl, ?_, ?_, ?_, ?_, ?_⟩ <;> rw [hc2] <;> simp [hill]
 
+/-! ## uploads -/
+
+/-- what the client must obtain from a server holding `v`, by answer style: an expedited answer
+    without size indication carries four bytes and nothing says how many are data -/
+def expectedUpload (st : Style) (v : Bytes) : Bytes :=
+  if st.expedited ∧ 1 ≤ v.length ∧ v.length ≤ 4 ∧ ¬ st.expSize then padTo 4 v else v
+
+theorem ss_upInit (s : SS) (idx sub : Nat) (v : Bytes) (hidx : idx < 65536) (hsub : sub < 256)
+    (hill : s.illegal = none) (hheld : heldLookup (idx, sub) s.held = some v) :
+    ssStep s (REQUEST_UPLOAD :: (muxB idx sub ++ [0, 0, 0, 0])) =
+      (if s.style.expedited ∧ 1 ≤ v.length ∧ v.length ≤ 4 then
+        ({ s with phase := .idle, mux := (idx, sub) },
+         [(if s.style.expSize then 0x43 + (4 - v.length) * 4 else 0x42) ::
+            ([idx % 256, idx / 256 % 256, sub % 256] ++ padTo 4 v)])
+       else
+        ({ s with phase := .up v false s.style.cuts, mux := (idx, sub) },
+         [(if s.style.sizeIndicated then 0x41 else 0x40) ::
+            ([idx % 256, idx / 256 % 256, sub % 256] ++
+              (if s.style.sizeIndicated then leBytes 4 v.length else [0, 0, 0, 0]))])) := by
+  obtain ⟨m1, m2, m3, m4⟩ := muxB_getD idx sub REQUEST_UPLOAD [0, 0, 0, 0] hidx hsub
+  obtain ⟨f1, f2⟩ := upReq_fields.1
+  simp only [ssStep, m4, List.length_cons, List.length_nil, ne_eq, not_true_eq_false, if_false,
+    List.headD_cons, f1, show ¬ ((2 : Nat) = 1) from by decide, show ¬ ((2 : Nat) = 0) from by decide, if_true,
+    onUpInit, m1, m2, m3, f2, flagIf_false]
+  simp [allZeroB, flagIf_false, hheld]
+
+/-- `ReadableStream.__init__` against the strict server holding `v` -/
+theorem rsInit_ok (c : Chan PS) (idx sub : Nat) (v : Bytes) (hidx : idx < 65536) (hsub : sub < 256)
+    (hlen : v.length < 2 ^ 32) (hill : c.peer.1.illegal = none)
+    (hheld : heldLookup (idx, sub) c.peer.1.held = some v) :
+    ∃ c' s, rsInit specPeer c idx sub = (c', .ok s) ∧ c'.peer.1.illegal = none ∧
+      c'.peer.1.held = c.peer.1.held ∧ c'.peer.1.commits = c.peer.1.commits ∧
+      c'.peer.1.style = c.peer.1.style ∧ s.done = false ∧
+      ((c.peer.1.style.expedited ∧ 1 ≤ v.length ∧ v.length ≤ 4 ∧
+          s.expData = some (expectedUpload c.peer.1.style v) ∧ c'.peer.1.phase = .idle ∧
+          s.size = (if c.peer.1.style.expSize then some v.length else none)) ∨
+       (¬ (c.peer.1.style.expedited ∧ 1 ≤ v.length ∧ v.length ≤ 4) ∧ s.expData = none ∧ s.toggle = tb false ∧
+          c'.peer.1.phase = .up v false c.peer.1.style.cuts ∧
+          s.size = (if c.peer.1.style.sizeIndicated then some v.length else none))) := by
+  have hstep := ss_upInit c.peer.1 idx sub v hidx hsub hill hheld
+  have hsub' : sub % 256 = sub := Nat.mod_eq_of_lt hsub
+  have hmux : idx % 256 + 256 * (idx / 256 % 256) = idx := by omega
+  obtain ⟨u1, u2, u3, u4⟩ := upInitResp_fields
+  unfold rsInit
+  dsimp only
+  by_cases hexp : c.peer.1.style.expedited ∧ 1 ≤ v.length ∧ v.length ≤ 4
+  · rw [if_pos hexp] at hstep
+    by_cases hes : c.peer.1.style.expSize = true
+    · simp only [hes, if_true] at hstep
+      obtain ⟨a1, a2, a3, a4, a5⟩ := u1 v.length (mem14 _ hexp.2.1 hexp.2.2)
+      have hrr := rr_one c _ _ _ _ _ hstep rfl a1
+      rw [hrr]
+      have hpl : (padTo 4 v).length = 4 := padTo_len 4 v hexp.2.2
+      simp only [List.length_cons, List.length_append, hpl, List.length_nil, List.headD_cons,
+        show ¬ (1 + 1 + 1 + 4 + 1 < 4) from by omega, if_false, a2, ne_eq, not_true_eq_false, a3,
+        not_false_eq_true, if_true, a4, a5, List.getD_cons_succ, List.getD_cons_zero, hmux, hsub',
+        List.cons_append, List.nil_append, List.drop_succ_cons, List.drop_zero, not_or, and_self,
+        List.take_of_length_le (Nat.le_of_eq hpl), padTo_take']
+      refine ⟨_, _, rfl, hill, rfl, rfl, rfl, rfl, Or.inl ⟨hexp.1, hexp.2.1, hexp.2.2, ?_, rfl, ?_⟩⟩
+      · simp [expectedUpload, hes]
+      · simp [hes]
+    · have hes' : c.peer.1.style.expSize = false := by simpa using hes
+      simp only [hes', Bool.false_eq_true, if_false] at hstep
+      obtain ⟨a1, a2, a3, a4⟩ := u2
+      have hrr := rr_one c _ _ _ _ _ hstep rfl a1
+      rw [hrr]
+      have hpl : (padTo 4 v).length = 4 := padTo_len 4 v hexp.2.2
+      simp only [List.length_cons, List.length_append, hpl, List.length_nil, List.headD_cons,
+        show ¬ (1 + 1 + 1 + 4 + 1 < 4) from by omega, if_false, a2, ne_eq, not_true_eq_false, a3,
+        not_false_eq_true, if_true, a4, List.getD_cons_succ, List.getD_cons_zero, hmux, hsub',
+        List.cons_append, List.nil_append, List.drop_succ_cons, List.drop_zero, not_or, and_self,
+        List.take_of_length_le (Nat.le_of_eq hpl)]
+      refine ⟨_, _, rfl, hill, rfl, rfl, rfl, rfl, Or.inl ⟨hexp.1, hexp.2.1, hexp.2.2, ?_, rfl, ?_⟩⟩
+      · simp [expectedUpload, hes', hexp]
+      · simp [hes']
+  · rw [if_neg hexp] at hstep
+    by_cases hsi : c.peer.1.style.sizeIndicated = true
+    · simp only [hsi, if_true] at hstep
+      obtain ⟨a1, a2, a3, a4⟩ := u3
+      have hrr := rr_one c _ _ _ _ _ hstep rfl a1
+      rw [hrr]
+      have hv : leVal (leBytes 4 v.length) = v.length := by
+        rw [leVal_leBytes]; exact Nat.mod_eq_of_lt (by simpa using hlen)
+      simp only [List.length_cons, List.length_append, leBytes_length, List.length_nil, List.headD_cons,
+        show ¬ (1 + 1 + 1 + 4 + 1 < 4) from by omega, if_false, a2, ne_eq, not_true_eq_false, a3,
+        not_false_eq_true, if_true, a4, List.getD_cons_succ, List.getD_cons_zero, hmux, hsub',
+        List.cons_append, List.nil_append, List.drop_succ_cons, List.drop_zero, not_or, and_self,
+        List.take_of_length_le (Nat.le_of_eq (leBytes_length 4 v.length)), hv]
+      exact ⟨_, _, rfl, hill, rfl, rfl, rfl, rfl, Or.inr ⟨hexp, rfl, rfl, rfl, by simp [hsi]⟩⟩
+    · have hsi' : c.peer.1.style.sizeIndicated = false := by simpa using hsi
+      simp only [hsi', Bool.false_eq_true, if_false] at hstep
+      obtain ⟨a1, a2, a3, a4⟩ := u4
+      have hrr := rr_one c _ _ _ _ _ hstep rfl a1
+      rw [hrr]
+      simp only [List.length_cons, List.length_append, List.length_nil, List.headD_cons,
+        show ¬ (1 + 1 + 1 + (0 + 1 + 1 + 1 + 1) + 1 < 4) from by omega, if_false, a2, ne_eq, not_true_eq_false, a3,
+        not_false_eq_true, if_true, a4, List.getD_cons_succ, List.getD_cons_zero, hmux, hsub',
+        List.cons_append, List.nil_append, not_or, and_self]
+      exact ⟨_, _, rfl, hill, rfl, rfl, rfl, rfl, Or.inr ⟨hexp, rfl, rfl, rfl, by simp [hsi']⟩⟩
+
+/-- phase of the strict server after one upload segment -/
+def nextUpPhase (rest : Bytes) (tg : Bool) (cuts : List Nat) : Phase :=
+  if (rest.drop (clampCut (cuts.headD 7))).isEmpty then .idle
+  else .up (rest.drop (clampCut (cuts.headD 7))) (!tg) cuts.tail
+
+/-- the strict server on the client's upload segment request -/
+theorem ss_upSeg (s : SS) (rest : Bytes) (tg : Bool) (cuts : List Nat)
+    (hph : s.phase = .up rest tg cuts) (hill : s.illegal = none) :
+    ssStep s ((REQUEST_SEGMENT_UPLOAD ||| tb tg) :: List.replicate 7 0) =
+      ({ s with phase := nextUpPhase rest tg cuts },
+       [(0x00 + tb tg + (7 - (rest.take (clampCut (cuts.headD 7))).length) * 2 +
+          (if (rest.drop (clampCut (cuts.headD 7))).isEmpty then 1 else 0)) ::
+            padTo 7 (rest.take (clampCut (cuts.headD 7)))]) := by
+  obtain ⟨f1, f2, f3⟩ := upReq_fields.2 tg
+  simp only [ssStep, List.length_cons, List.length_replicate, ne_eq, not_true_eq_false, if_false,
+    List.headD_cons, f1, show ¬ ((3 : Nat) = 1) from by decide, show ¬ ((3 : Nat) = 0) from by decide,
+    show ¬ ((3 : Nat) = 2) from by decide, if_true, onUpSeg, hph, f2, f3, flagIf_false,
+    List.drop_succ_cons, List.drop_zero, allZeroB_replicate, Bool.not_true, bne_self_eq_false, nextUpPhase]
+
+/-- one raw `read()` of a segmented upload against the strict server -/
+theorem rsRead_seg (c : Chan PS) (s : RS) (rest : Bytes) (tg : Bool) (cuts : List Nat)
+    (hph : c.peer.1.phase = .up rest tg cuts) (hill : c.peer.1.illegal = none)
+    (hnd : s.done = false) (hexp : s.expData = none) (htg : s.toggle = tb tg) :
+    rsRead specPeer c s =
+        ({ peer := ({ c.peer.1 with phase := nextUpPhase rest tg cuts },
+                    c.peer.2 ++ [(0x00 + tb tg + (7 - (rest.take (clampCut (cuts.headD 7))).length) * 2 +
+                      (if (rest.drop (clampCut (cuts.headD 7))).isEmpty then 1 else 0)) ::
+                        padTo 7 (rest.take (clampCut (cuts.headD 7)))]),
+           queue := [],
+           sent := c.sent ++ [(REQUEST_SEGMENT_UPLOAD ||| tb tg) :: List.replicate 7 0] },
+         .ok ({ s with done := (rest.drop (clampCut (cuts.headD 7))).isEmpty, toggle := tb (!tg),
+                           pos := s.pos + (rest.take (clampCut (cuts.headD 7))).length },
+                  rest.take (clampCut (cuts.headD 7)))) := by
+  have hstep := ss_upSeg c.peer.1 rest tg cuts hph hill
+  have hk : clampCut (cuts.headD 7) ≤ 7 := by simp only [clampCut]; omega
+  have hl7 : (rest.take (clampCut (cuts.headD 7))).length ≤ 7 := by
+    simp only [List.length_take]; omega
+  obtain ⟨a1, a2, a3, a4, a5⟩ := upSegResp_fields tg _ (mem07 _ hl7) (rest.drop (clampCut (cuts.headD 7))).isEmpty
+  generalize (0x00 + tb tg + (7 - (rest.take (clampCut (cuts.headD 7))).length) * 2 +
+    (if (rest.drop (clampCut (cuts.headD 7))).isEmpty then 1 else 0)) = cmd at *
+  have hrr := rr_one c _ _ _ _ _ hstep rfl a1
+  simp only [rsRead, hnd, Bool.false_eq_true, if_false, hexp, htg]
+  rw [hrr]
+  simp only [List.headD_cons, a2, ne_eq, not_true_eq_false, if_false, a3, a4, List.drop_succ_cons,
+    List.drop_zero, padTo_take', tb_xor, Bool.false_or]
+  cases hE : (rest.drop (clampCut (cuts.headD 7))).isEmpty
+  · rw [hE] at a5
+    have hP : cmd &&& NO_MORE_DATA = 0 := by simpa using a5
+    simp [hP]
+  · rw [hE] at a5
+    have hP : ¬ (cmd &&& NO_MORE_DATA = 0) := by simpa using a5
+    simp [hP]
+
+/-- `readall()` over a segmented upload: the concatenation of the segments is the held value -/
+theorem rsReadAll_seg (v : Bytes) :
+    ∀ (fuel : Nat) (c : Chan PS) (s : RS) (acc rest : Bytes) (tg : Bool) (cuts : List Nat),
+      c.peer.1.phase = .up rest tg cuts → c.peer.1.illegal = none → s.done = false → s.expData = none →
+      s.toggle = tb tg → acc ++ rest = v → rest.length + 2 ≤ fuel →
+      ∃ c' s', rsReadAll specPeer fuel c s acc = (c', .ok (s', v)) ∧ c'.peer.1.illegal = none ∧
+        c'.peer.1.phase = .idle ∧ c'.peer.1.held = c.peer.1.held ∧ c'.peer.1.commits = c.peer.1.commits ∧
+        c'.peer.1.style = c.peer.1.style := by
+  intro fuel
+  induction fuel with
+  | zero => intro c s acc rest tg cuts _ _ _ _ _ _ hf; omega
+  | succ fuel ih =>
+    intro c s acc rest tg cuts hph hill hnd hexp htg hacc hf
+    obtain ⟨c1, hread, hc1⟩ : ∃ c1, rsRead specPeer c s =
+        (c1, .ok ({ s with done := (rest.drop (clampCut (cuts.headD 7))).isEmpty, toggle := tb (!tg),
+                           pos := s.pos + (rest.take (clampCut (cuts.headD 7))).length },
+                  rest.take (clampCut (cuts.headD 7)))) ∧
+        c1.peer.1 = { c.peer.1 with phase := nextUpPhase rest tg cuts } :=
+      ⟨_, rsRead_seg c s rest tg cuts hph hill hnd hexp htg, rfl⟩
+    have hk1 : 1 ≤ clampCut (cuts.headD 7) := by simp only [clampCut]; omega
+    simp only [nextUpPhase] at hc1
+    unfold rsReadAll
+    rw [hread]
+    simp only []
+    generalize clampCut (cuts.headD 7) = k at *
+    by_cases hre : rest = []
+    · -- empty value: one empty last segment
+      subst hre
+      simp only [List.take_nil, List.isEmpty_nil, if_true]
+      simp only [List.append_nil] at hacc
+      subst hacc
+      refine ⟨c1, _, rfl, ?_, ?_, ?_, ?_, ?_⟩ <;> rw [hc1] <;> simp [hill]
+    · have hrl : 1 ≤ rest.length := by
+        cases rest with
+        | nil => exact absurd rfl hre
+        | cons x xs => simp
+      have hne : (rest.take k).isEmpty = false := by
+        cases rest with
+        | nil => exact absurd rfl hre
+        | cons x xs =>
+          obtain ⟨k', hk'⟩ : ∃ k', k = k' + 1 := ⟨k - 1, by omega⟩
+          rw [hk']; rfl
+      simp only [hne, Bool.false_eq_true, if_false]
+      by_cases hlast : (rest.drop k).isEmpty = true
+      · -- last segment: the next read returns nothing and the loop ends
+        have hdrop : rest.drop k = [] := by simpa using hlast
+        have htake : rest.take k = rest := by
+          have := List.take_append_drop k rest
+          rw [hdrop, List.append_nil] at this; exact this
+        cases fuel with
+        | zero => omega
+        | succ f =>
+          unfold rsReadAll
+          simp only [rsRead, hlast, if_true, List.isEmpty_nil, htake, hacc]
+          refine ⟨c1, _, rfl, ?_, ?_, ?_, ?_, ?_⟩ <;> rw [hc1] <;> simp only [hill, hlast, if_true]
+      · have hl' : (rest.drop k).isEmpty = false := by simpa using hlast
+        have hklt : k < rest.length := by
+          by_cases h : k < rest.length
+          · exact h
+          · have : rest.drop k = [] := List.drop_eq_nil_of_le (by omega)
+            rw [this] at hl'; simp at hl'
+        have hph1 : c1.peer.1.phase = .up (rest.drop k) (!tg) cuts.tail := by
+          rw [hc1]; simp only [hl', Bool.false_eq_true, if_false]
+        have := ih c1 { s with done := (rest.drop k).isEmpty, toggle := tb (!tg),
+                               pos := s.pos + (rest.take k).length }
+          (acc ++ rest.take k) (rest.drop k) (!tg) cuts.tail
+          hph1 (by rw [hc1]; exact hill) hl' hexp rfl
+          (by rw [List.append_assoc, List.take_append_drop]; exact hacc)
+          (by simp only [List.length_drop]; omega)
+        obtain ⟨c', s', hr, h1, h2, h3, h4, h5⟩ := this
+        refine ⟨c', s', hr, h1, h2, ?_, ?_, ?_⟩
+        · rw [h3, hc1]
+        · rw [h4, hc1]
+        · rw [h5, hc1]
+
+/-- **An upload returns exactly the bytes the server holds** (API level: `SdoClient.upload`, with
+    the dictionary-size rule `truncate`).
+
+For every multiplexer, every held value `v` (any length ≥ 0), every answer style the standard
+allows — size indicated or not, expedited with or without size for 1..4 bytes or segmented
+anyway, upload segments cut anywhere (any list of cut lengths, each used as 1..7) — every prior
+server state without an illegal frame and every stale queue content: the call returns
+`truncate odType size (expectedUpload style v)`, the server saw no illegal request, is idle again,
+and holds what it held. -/
+theorem upload_returns (c : Chan PS) (idx sub : Nat) (v : Bytes) (odType : Option (Option Nat)) (fuel : Nat)
+    (hidx : idx < 65536) (hsub : sub < 256) (hlen : v.length < 2 ^ 32) (hfuel : v.length + 2 ≤ fuel)
+    (hill : c.peer.1.illegal = none) (hheld : heldLookup (idx, sub) c.peer.1.held = some v) :
+    ∃ c' respSize, upload specPeer c idx sub odType fuel =
+        (c', .ok (truncate odType respSize (expectedUpload c.peer.1.style v))) ∧
+      (respSize = none ∨ respSize = some v.length) ∧
+      c'.peer.1.illegal = none ∧ c'.peer.1.phase = .idle ∧ c'.peer.1.held = c.peer.1.held ∧
+      c'.peer.1.commits = c.peer.1.commits ∧ c'.peer.1.style = c.peer.1.style := by
+  obtain ⟨c1, s, hinit, hi1, hh1, hc1, hs1, hnd, hcase⟩ := rsInit_ok c idx sub v hidx hsub hlen hill hheld
+  unfold upload
+  rw [hinit]
+  simp only []
+  rcases hcase with ⟨he, h1, h4, hexp, hph, hsz⟩ | ⟨hne, hexp, htg, hph, hsz⟩
+  · simp only [hexp]
+    refine ⟨c1, s.size, rfl, ?_, hi1, hph, hh1, hc1, hs1⟩
+    rw [hsz]; split <;> simp
+  · simp only [hexp]
+    obtain ⟨c2, s2, hall, hi2, hp2, hh2, hc2, hs2⟩ :=
+      rsReadAll_seg v fuel c1 s [] v false c.peer.1.style.cuts hph hi1 hnd hexp htg rfl hfuel
+    rw [hall]
+    simp only []
+    have hexpd : expectedUpload c.peer.1.style v = v := by
+      unfold expectedUpload
+      rw [if_neg]
+      intro h
+      exact hne ⟨h.1, h.2.1, h.2.2.1⟩
+    rw [hexpd]
+    refine ⟨c2, s.size, rfl, ?_, hi2, hp2, by rw [hh2, hh1], by rw [hc2, hc1], by rw [hs2, hs1]⟩
+    rw [hsz]; split <;> simp
+
+/-- **Fixed-size entries get exactly the declared number of leading bytes; everything else is
+    returned as received.**  The cut applies exactly to the data types of the generated
+    `STRUCT_TYPES` table (numeric and boolean types): the result is the first `width/8` bytes
+    whenever the response is longer or did not indicate its size; strings, domains, unknown types
+    and objects missing from the dictionary are never cut. -/
+theorem upload_truncate (data : Bytes) (respSize : Option Nat) (hrs : respSize = none ∨ respSize = some data.length) :
+    (truncate none respSize data = data) ∧
+    (truncate (some none) respSize data = data) ∧
+    (∀ t, Codec.findRow t = none → truncate (some (some t)) respSize data = data) ∧
+    (∀ t r, Codec.findRow t = some r → truncate (some (some t)) respSize data = data.take r.size) := by
+  refine ⟨rfl, rfl, ?_, ?_⟩
+  · intro t ht; simp [truncate, ht]
+  · intro t r ht
+    have hb : Codec.bitLen (some t) / 8 = r.size := by simp [Codec.bitLen, ht]
+    simp only [truncate, Option.bind_some, ht, hb]
+    rcases hrs with h | h
+    · rw [h]
+    · rw [h]
+      simp only []
+      split
+      · rfl
+      · rw [List.take_of_length_le (by omega)]
+
+/-! ## histories, abort decoding -/
+
+/-- a transfer request on the API -/
+inductive Xfer where
+  | down (idx sub : Nat) (payload : Bytes) (sized force : Bool) (offers : List Nat)
+  | up (idx sub : Nat)
+
+def Xfer.ok : Xfer → Prop
+  | .down idx sub payload _ _ _ => idx < 65536 ∧ sub < 256 ∧ payload.length < 2 ^ 32
+  | .up idx sub => idx < 65536 ∧ sub < 256
+
+/-- run a list of transfers on one client, collecting whether each returned normally and what
+    uploads returned -/
+def runXfers : Chan PS → List Xfer → List (Option Bytes) → Chan PS × List (Option Bytes)
+  | c, [], acc => (c, acc)
+  | c, .down i j p sz f o :: xs, acc =>
+    match download specPeer c i j p sz f o with
+    | (c', .ok _) => runXfers c' xs (acc ++ [some []])
+    | (c', .error _) => runXfers c' xs (acc ++ [none])
+  | c, .up i j :: xs, acc =>
+    match upload specPeer c i j none 1000000000000 with
+    | (c', .ok d) => runXfers c' xs (acc ++ [some d])
+    | (c', .error _) => runXfers c' xs (acc ++ [none])
+
+/-- what the server must end up having committed, and what each upload must return -/
+def specXfers (st : Style) : List ((Nat × Nat) × Bytes) → List Xfer → List ((Nat × Nat) × Bytes) × List (Option Bytes)
+  | held, [] => ([], [])
+  | held, .down i j p _ _ _ :: xs =>
+    let (cs, rs) := specXfers st (((i, j), p) :: held) xs
+    (((i, j), p) :: cs, some [] :: rs)
+  | held, .up i j :: xs =>
+    let (cs, rs) := specXfers st held xs
+    (cs, (heldLookup (i, j) held).map (expectedUpload st) :: rs)
+
+/-- an upload of something the server does not hold is refused (0x06020000) and changes nothing -/
+theorem upload_missing (c : Chan PS) (idx sub : Nat) (odType : Option (Option Nat)) (fuel : Nat)
+    (hidx : idx < 65536) (hsub : sub < 256) (hill : c.peer.1.illegal = none)
+    (hheld : heldLookup (idx, sub) c.peer.1.held = none) :
+    ∃ c' e, upload specPeer c idx sub odType fuel = (c', .error e) ∧
+      c'.peer.1.illegal = none ∧ c'.peer.1.held = c.peer.1.held ∧
+      c'.peer.1.commits = c.peer.1.commits ∧ c'.peer.1.style = c.peer.1.style := by
+  obtain ⟨m1, m2, m3, m4⟩ := muxB_getD idx sub REQUEST_UPLOAD [0, 0, 0, 0] hidx hsub
+  obtain ⟨f1, f2⟩ := upReq_fields.1
+  have hstep : ssStep c.peer.1 (REQUEST_UPLOAD :: (muxB idx sub ++ [0, 0, 0, 0])) =
+      ({ c.peer.1 with phase := .idle, mux := (idx, sub) }, [abortResp idx sub 0x06020000]) := by
+    simp only [ssStep, m4, List.length_cons, List.length_nil, ne_eq, not_true_eq_false, if_false,
+      List.headD_cons, f1, show ¬ ((2 : Nat) = 1) from by decide, show ¬ ((2 : Nat) = 0) from by decide, if_true,
+      onUpInit, m1, m2, m3, f2, flagIf_false]
+    simp [allZeroB, flagIf_false, hheld]
+  obtain ⟨⟨s0, log⟩, q, snt⟩ := c
+  simp only [upload, rsInit, requestResponse, send, specPeer] at hstep ⊢
+  simp only [hstep, List.nil_append]
+  simp only [abortResp, decodeResponse, List.cons_append, RESPONSE_ABORTED, if_true, List.length_cons,
+    List.length_append, leBytes_length, List.length_nil]
+  exact ⟨_, _, rfl, hill, rfl, rfl, rfl⟩
+
+/-- every held value is shorter than 2³² bytes (what the size field can announce) -/
+def HeldBounded (held : List ((Nat × Nat) × Bytes)) : Prop :=
+  ∀ k v, heldLookup k held = some v → v.length < 2 ^ 32
+
+/-- **Transfers back-to-back on one client.**  For any history of downloads (any payloads,
+    chunkings, modes) and uploads, starting from any server state without an illegal frame and
+    any queue content: every download returns normally, every upload returns the value the server
+    holds *at that moment* (initially held, or committed by an earlier download of the history;
+    an object it does not hold is refused), the server commits exactly the downloaded payloads in
+    order, and no request frame of the whole history is illegal. -/
+theorem back_to_back (xs : List Xfer) :
+    ∀ (c : Chan PS) (acc : List (Option Bytes)),
+      (∀ x ∈ xs, x.ok) → c.peer.1.illegal = none → HeldBounded c.peer.1.held →
+      (runXfers c xs acc).2 = acc ++ (specXfers c.peer.1.style c.peer.1.held xs).2 ∧
+      (runXfers c xs acc).1.peer.1.commits =
+        c.peer.1.commits ++ (specXfers c.peer.1.style c.peer.1.held xs).1 ∧
+      (runXfers c xs acc).1.peer.1.illegal = none := by
+  induction xs with
+  | nil => intro c acc _ hill _; simp [runXfers, specXfers, hill]
+  | cons x xs ih =>
+    intro c acc hok hill hb
+    have hx := hok x (by simp)
+    have hrest : ∀ y ∈ xs, y.ok := fun y hy => hok y (by simp [hy])
+    cases x with
+    | down i j p sz f o =>
+      obtain ⟨hi, hj, hp⟩ := hx
+      obtain ⟨c', hd, hi', _, hc', hh', hs'⟩ := download_delivers c i j p sz f o hi hj hp hill
+      have hb' : HeldBounded c'.peer.1.held := by
+        intro k v hk
+        rw [hh'] at hk
+        simp only [heldLookup] at hk
+        split at hk
+        · cases hk; exact hp
+        · exact hb k v hk
+      obtain ⟨r1, r2, r3⟩ := ih c' (acc ++ [some []]) hrest hi' hb'
+      simp only [runXfers, hd, specXfers]
+      rw [hs', hh'] at r1 r2
+      refine ⟨?_, ?_, r3⟩
+      · rw [r1]; simp
+      · rw [r2, hc']; simp
+    | up i j =>
+      obtain ⟨hi, hj⟩ := hx
+      cases hh : heldLookup (i, j) c.peer.1.held with
+      | none =>
+        obtain ⟨c', e, hu, hi', hh', hc', hs'⟩ := upload_missing c i j none 1000000000000 hi hj hill hh
+        obtain ⟨r1, r2, r3⟩ := ih c' (acc ++ [none]) hrest hi' (by rw [hh']; exact hb)
+        simp only [runXfers, hu, specXfers, hh]
+        rw [hs', hh'] at r1 r2
+        refine ⟨?_, ?_, r3⟩
+        · rw [r1]; simp
+        · rw [r2, hc']
+      | some v =>
+        have hv := hb _ _ hh
+        obtain ⟨c', rs, hu, _, hi', _, hh', hc', hs'⟩ :=
+          upload_returns c i j v none 1000000000000 hi hj hv (by omega) hill hh
+        obtain ⟨r1, r2, r3⟩ := ih c' (acc ++ [some (expectedUpload c.peer.1.style v)]) hrest hi'
+          (by rw [hh']; exact hb)
+        simp only [runXfers, hu, specXfers, hh, truncate]
+        rw [hs', hh'] at r1 r2
+        refine ⟨?_, ?_, r3⟩
+        · rw [r1]; simp
+        · rw [r2, hc']
+
+/-- **Abort frames decode to exactly the received code**: for every code below 2³² and any
+    multiplexer bytes, `read_response` raises the aborted-transfer error with that code; through
+    `request_response` the caller sees the same error, whatever was in the queue before. -/
+theorem client_decodes_abort (code a b d : Nat) (hc : code < 2 ^ 32) :
+    decodeResponse ([0x80, a, b, d] ++ leBytes 4 code) = .error (.aborted code) := by
+  have h : leVal (leBytes 4 code) = code := by
+    rw [leVal_leBytes]; exact Nat.mod_eq_of_lt (by simpa using hc)
+  simp only [decodeResponse, List.cons_append, List.nil_append, RESPONSE_ABORTED, if_true, List.length_cons,
+    leBytes_length, List.length_nil, List.drop_succ_cons, List.drop_zero]
+  simp [List.take_of_length_le, h]
+
+/-- **Every request frame of a download is legal** (second sentence of the property): the strict
+    server, which checks each request it receives (8 bytes, command specifier legal for the step,
+    multiplexer, toggle alternating from 0, unused-byte count, exactly one last-segment flag,
+    declared size = bytes sent, padding zero), has nothing to object to.  The examples below show
+    that the server really does object to each kind of defect. -/
+theorem download_frames_legal (c : Chan PS) (idx sub : Nat) (payload : Bytes) (sized force : Bool)
+    (offers : List Nat) (hidx : idx < 65536) (hsub : sub < 256) (hlen : payload.length < 2 ^ 32)
+    (hill : c.peer.1.illegal = none) :
+    ∃ c', download specPeer c idx sub payload sized force offers = (c', .ok ()) ∧
+      c'.peer.1.illegal = none := by
+  obtain ⟨c', h1, h2, _⟩ := download_delivers c idx sub payload sized force offers hidx hsub hlen hill
+  exact ⟨c', h1, h2⟩
+
+/-! ### the strict server is strict (non-vacuity of "no illegal frame") -/
+
+def st0 : SS := ssInit [] ⟨true, true, true, []⟩
+
+-- a 7-byte request
+example : (ssStep st0 [0x40, 0, 0x20, 0, 0, 0, 0]).1.illegal ≠ none := by decide
+-- reserved bit in a download initiate
+example : (ssStep st0 [0x31, 0, 0x20, 0, 2, 0, 0, 0]).1.illegal ≠ none := by decide
+-- first segment with toggle = 1
+example : (ssStep (ssStep st0 [0x21, 0, 0x20, 0, 2, 0, 0, 0]).1 [0x1B, 1, 2, 0, 0, 0, 0, 0]).1.illegal ≠ none := by
+  decide
+-- unused bytes not zero
+example : (ssStep (ssStep st0 [0x21, 0, 0x20, 0, 2, 0, 0, 0]).1 [0x0B, 1, 2, 9, 0, 0, 0, 0]).1.illegal ≠ none := by
+  decide
+-- declared size 3, two bytes sent and flagged last
+example : (ssStep (ssStep st0 [0x21, 0, 0x20, 0, 3, 0, 0, 0]).1 [0x0B, 1, 2, 0, 0, 0, 0, 0]).1.illegal ≠ none := by
+  decide
+-- a well-formed transfer is accepted and committed
+example : (ssStep (ssStep st0 [0x21, 0, 0x20, 0, 2, 0, 0, 0]).1 [0x0B, 1, 2, 0, 0, 0, 0, 0]).1.illegal = none ∧
+    (ssStep (ssStep st0 [0x21, 0, 0x20, 0, 2, 0, 0, 0]).1 [0x0B, 1, 2, 0, 0, 0, 0, 0]).1.commits =
+      [((0x2000, 0), [1, 2])] := by decide
+
+-- the theorems' hypotheses are met by a concrete channel, e.g. one with stale junk in the queue
+example : ∃ c', download specPeer ⟨(st0, []), [[1, 2, 3]], []⟩ 0x2000 0 [1, 2, 3, 4, 5, 6, 7, 8, 9] true false [2, 9] =
+    (c', .ok ()) ∧ c'.peer.1.commits = [((0x2000, 0), [1, 2, 3, 4, 5, 6, 7, 8, 9])] := by
+  obtain ⟨c', h, _, _, hc, _⟩ := download_delivers ⟨(st0, []), [[1, 2, 3]], []⟩ 0x2000 0
+    [1, 2, 3, 4, 5, 6, 7, 8, 9] true false [2, 9] (by decide) (by decide) (by decide) rfl
+  exact ⟨c', h, hc⟩
+
 end Canopen.C01
